@@ -99,7 +99,8 @@ JCorrupt(r) ==
         <<"C14:target_untouched", r.target_cps = r.text_cps>>,
         <<"C14:same_non_whitespace_characters", Cps(NoWs(r.ov)) = Cps(NoWs(r.tv))>>,
         <<"C14:output_is_whitespace_clean", NoMixed(r.ov) /\ IsClean(r.ov)>>,
-        <<"C14:operations_and_repair_recover_the_text", okOps /\ Cps(Repair(r.ov, ops)) = Cps(r.tv)>>,
+        \* ... by the two-pointer alignment and the repair fold of Ws.tla, and by the library's own operations / repair
+        <<"C14:operations_and_repair_recover_the_text", okOps /\ Cps(Repair(r.ov, ops)) = Cps(r.tv) /\ r.lib.ok /\ r.lib.cps = Cps(r.tv)>>,
         <<"C14:one_label_per_input_character",
             \* npfx prefix and nsfx suffix tokens carry the label -1, the characters' labels (the operations) sit between them
             r.task.ok /\ Len(r.task.labels) = Len(r.ov) + r.npfx + r.nsfx
